@@ -40,7 +40,7 @@ TRUSTED = ['Coq 8.16.1 kernel (coqc; coqchk in the thorough tier); no axioms (Pr
            'extraction with ExtrOcamlBasic only (+ Extraction Blacklist List: file renaming) + ocaml/vio.ml, d_wire.ml, driver_lib.ml',
            'harness/wire/src/dom.rs: value construction through public constructors (RangeList::get_mut_ranges to build non-compact lists), canonical printing',
            'hook: #[cfg(undermoon_verif)] pub mod verif in /repo/src/coordinator/mod.rs (re-export of ProxyMetaRespSender / MigrationStateRespChecker); fake recording RedisClient in the harness',
-           'textual pin: executor.rs joins task.into_strings() with " "; coordinator/migration.rs splits on \' \' and calls MigrationTaskMeta::from_strings (task_unstr corpus cases repeat the two statements)',
+           'harness/wire/src/e2e.rs: two real proxies over an in-process network with a Redis stand-in (SCAN empty, PTTL -2, DUMP nil) run real migrations to SwitchCommitted; INFOMGR is answered by the real executor and read by the real coordinator checker (no textual pin)',
            'tokens restricted to ASCII (to_uppercase / to_lowercase modelled on ASCII letters)']
 
 G = 'wire'
@@ -215,14 +215,6 @@ def kv(line):
     return dict(x.split('=', 1) for x in line.split() if '=' in x)
 
 
-def pins():
-    ex = open('/repo/src/proxy/executor.rs').read()
-    mg = open('/repo/src/coordinator/migration.rs').read()
-    ok1 = re.search(r'task\.into_strings\(\)\.join\(" "\)', ex) is not None
-    ok2 = re.search(r"\.split\(' '\)\s*\.map\(ToString::to_string\)\s*\.collect::<Vec<String>>\(\)\s*\.into_iter\(\)\s*\.peekable\(\);\s*MigrationTaskMeta::from_strings\(&mut it\)", mg) is not None
-    return ok1, ok2
-
-
 CORPUS_DEC = [
     # leniencies of the parser that the printer never produces (correspondence only)
     'sr_dec ' + toks_str([b'+2', b'1-2-3', b'007-+9', b'x']),
@@ -256,7 +248,7 @@ CORPUS_DEC = [
     'repl_dec ' + toks_str([b'5', b'f', b'slave', b'n', b'a', b'0']), 'repl_dec ' + toks_str([b'5', b'f', b'master']),
     'repl_dec ' + toks_str([b'5', b'f', b'master', b'n.n', b'a', b'0']), 'repl_dec ' + toks_str([b'5', b'f', b'master', b'n', b'a', b'1', b'x']),
     'repl_dec ' + toks_str([b'5', b'f', b'slave', b'n', b'a', b'1', b'x']), 'repl_dec ' + toks_str([b'5', b'f', b'slave', b'n']),
-    'task_unstr ' + hx(b'n 1 0-5  trailing'), 'task_unstr ' + hx(b' 1 0-5'), 'task_unstr ' + hx(b''), 'task_unstr ' + hx(b'n  1 0-5'),
+    'coord_infomgr ' + hx(b'n 1 0-5  trailing'), 'coord_infomgr ' + hx(b' 1 0-5'), 'coord_infomgr ' + hx(b''), 'coord_infomgr ' + hx(b'n  1 0-5'),
     'mm_dec ' + toks_str([b'+1', b'', b'', b'', b'', b'x']), 'mm_dec ' + toks_str([b'1', b'a', b'b', b'c']),
     'flags_dec ' + hx(b'force'), 'flags_dec ' + hx(b'FORCE,compress'), 'flags_dec ' + hx(b',COMPRESS,'), 'flags_dec ' + hx(b'FORCECOMPRESS'), 'flags_dec -',
     'flags_dec ' + hx(b'noflag'), 'flags_dec ' + hx(b'FORCE COMPRESS'), 'flags_enc 0', 'flags_enc 1', 'flags_enc 2', 'flags_enc 3',
@@ -364,11 +356,6 @@ def run(chk):
                        '(the unmutated decode of each message is the reference and is not counted)')
     if not ok:
         return
-    p1, p2 = pins()
-    chk.sub('pins', executor_join=p1, coordinator_split=p2)
-    if not (p1 and p2):
-        chk.violation({'kind': 'correspondence', 'correspondence': 'INFOMGR join(" ") / split(\' \') + from_strings pair (repeated in harness/wire/src/dom.rs)',
-                       'executor_join_found': p1, 'coordinator_split_found': p2}, no_input=True)
     quick = chk.tier == 'quick'
     g = Gen(chk.rng)
     R = Runner(chk)
@@ -426,9 +413,9 @@ def run(chk):
         for j in range(len(toks)):
             mt = toks[:j] + toks[j + 1:]
             dec_cases.append(dk + ' ' + (toks_str(mt) if mt else '-')); dmeta.append((k, v, 'del', j))
-        if k == 'task':
-            dec_cases.append('task_str ' + f_task(v)); dmeta.append((k, v, 'str', None))
     impl, model = R.both(dec_cases)
+    tasks_for_str = [v for k, v in leaf if k == 'task']
+    str_out = R.model(['task_str ' + f_task(v) for v in tasks_for_str])     # INFOMGR element as the model's join(" ") prints it
     # expected round-trip results come from the model's encoders+parsers being in agreement with the implementation; the monitor
     # itself only looks at what the implementation did
     strs = []
@@ -463,10 +450,6 @@ def run(chk):
                     violation(chk, stats, 'trailing-tokens-ignored', {'kind': 'monitor', 'what': 'deleting token %d of a %s encoding is accepted as a different value, %d trailing tokens ignored' % (det, k, rest), 'case': c, 'impl': o, 'orig': cur_orig})
                 else:
                     cls_cases.append((k, c, o, cur_orig))
-        elif kind == 'str':
-            p = o.split()
-            if len(p) == 2 and p[0] == 'str':
-                strs.append((v, p[1]))
     # deletions accepted with nothing left over: must re-encode to exactly the mutated vector (in the printer's language)
     if cls_cases:
         re_cases = []
@@ -479,7 +462,10 @@ def run(chk):
                 violation(chk, stats, 'token-mutation-in-language', {'kind': 'monitor', 'what': 'a %s encoding with one token deleted is itself a complete encoding of a different value' % k, 'case': c, 'impl': o, 'orig': oo})
             else:
                 violation(chk, stats, None, {'kind': 'monitor', 'what': 'a %s encoding with one token deleted is accepted as a different value and is not a printer output' % k, 'case': c, 'impl': o, 'orig': oo, 'reencoded': ro})
-    # INFOMGR string journey
+    for v, o in zip(tasks_for_str, str_out):
+        p = o.split()
+        if len(p) == 2 and p[0] == 'str': strs.append((v, p[1]))
+    # INFOMGR string journey (arbitrary descriptors): the model's element string through the coordinator's real reader
     un_cases = ['coord_infomgr ' + s for _, s in strs]       # the real MigrationStateRespChecker::check
     impl, model = R.both(un_cases)
     cl = R.model(['cls_task ' + f_task(v) for v, _ in strs])
@@ -494,6 +480,30 @@ def run(chk):
             else:
                 violation(chk, stats, None, {'kind': 'monitor', 'what': 'INFOMGR journey (join then split+from_strings) does not return the descriptor', 'case': c, 'impl': o, 'expected': want})
         stats['task_str_journey'] = stats.get('task_str_journey', 0) + 1
+
+    # ---------- 1b. INFOMGR end to end: real migrations on two real proxies -> real executor reply -> real coordinator reader ----------
+    n_e = 12 if quick else 150
+    sets = [(b'mycluster', 7799, [[(233, 666)]]), (b'', 1, [[]]), (b'c', U64, [[(0, 0)], [(16383, 16383)]])]
+    for _ in range(n_e):
+        k = g.r.choice([1, 1, 2, 3]); cur = g.r.randint(0, 2000); rls = []
+        for _ in range(k):
+            rl = []
+            for _ in range(g.r.choice([1, 1, 2, 3])):
+                s0 = cur; e0 = min(16383, s0 + g.r.choice([0, 1, 50, 900])); rl.append((s0, e0)); cur = e0 + g.r.randint(2, 700)
+            rls.append([r for r in rl if r[1] <= 16383 and r[0] <= r[1] and r[0] <= 16383])
+        rls = [rl for rl in rls if rl]
+        if rls and cur < 16384 + 700: sets.append((g.name(), max(1, g.num(True)), rls))
+    ec = ['infomgr_e2e %s %d %d %s' % (hx(n), e, len(rls), ' '.join(f_rl(rl) for rl in rls)) for n, e, rls in sets]
+    impl, _ = R.both(ec)
+    P1, N1, P2, N2 = b'127.0.1.1:5299', b'127.0.1.1:7001', b'127.0.2.1:5299', b'127.0.2.1:7001'
+    for (n, e, rls), c, o in zip(sets, ec, impl):
+        chk.count(c, True)
+        stats['infomgr_e2e'] = stats.get('infomgr_e2e', 0) + 1
+        want = sorted(f_task((n, ('M', rl, (e, P1, N1, P2, N2)))) for rl in rls)
+        got = o.split(' | ', 1)[1] if ' | ' in o else o
+        if got != 'ok %d %s' % (len(want), ' ; '.join(want)):
+            violation(chk, stats, None, {'kind': 'monitor', 'what': 'the descriptors a proxy reports through UMCTL INFOMGR do not reach the coordinator as the migrations that finished',
+                                         'case': c, 'impl': o, 'expected': 'ok %d %s' % (len(want), ' ; '.join(want))})
 
     # ---------- 2. cluster metadata, plain form ----------
     n_pcm = 40 if quick else 1200
